@@ -12,7 +12,49 @@ import (
 
 type intrinsicFn func(f *Frame, instr ssa.Instruction, args []*V, st *State) ([]*V, bool)
 
-var intrinsics = map[string]intrinsicFn{}
+var intrinsics = map[string]intrinsicFn{
+	"sort.Slice":   sortIntrinsic,
+	"sort.Strings": sortIntrinsic,
+}
+
+// sortIntrinsic: sorting permutes the elements of the slice in place. The new contents are the old
+// ones under a bijection of the index range (the order itself is not modelled).
+func sortIntrinsic(f *Frame, instr ssa.Instruction, args []*V, st *State) ([]*V, bool) {
+	u := f.u
+	sv := args[0]
+	if sv.Sl == nil {
+		sv = u.boxedSlices[args[0].T.S]
+	}
+	if sv == nil || sv.Sl == nil {
+		return nil, false
+	}
+	et := sv.Typ.Underlying().(*types.Slice).Elem()
+	u.nfresh++
+	n := u.nfresh
+	pi := u.declareFun(fmt.Sprintf("perm!%d", n), []Sort{SInt}, SInt)
+	inv := u.declareFun(fmt.Sprintf("perminv!%d", n), []Sort{SInt}, SInt)
+	ln := sv.Sl.Len
+	u.assume(st, T{fmt.Sprintf("(forall ((j!q Int)) (! (=> (and (<= 0 j!q) (< j!q %s)) (and (<= 0 (%s j!q)) (< (%s j!q) %s) (= (%s (%s j!q)) j!q))) :pattern ((%s j!q))))", ln.S, pi, pi, ln.S, inv, pi, pi), SBool})
+	u.assume(st, T{fmt.Sprintf("(forall ((k!q Int)) (! (=> (and (<= 0 k!q) (< k!q %s)) (and (<= 0 (%s k!q)) (< (%s k!q) %s) (= (%s (%s k!q)) k!q))) :pattern ((%s k!q))))", ln.S, inv, inv, ln.S, pi, inv, inv), SBool})
+	for _, l := range flatten(et) {
+		key := "E:" + typeKey(et) + l.Path
+		inner := arrSort(SInt, l.Sort)
+		h := u.heapGet(st, key, arrSort(SInt, inner))
+		old := sel(h, sv.Sl.Arr)
+		cont := u.fresh("sorted", inner)
+		at := func(base T, idx string) string {
+			return fmt.Sprintf("(select %s %s)", base.S, u.sidx(sv.Sl.Off, T{idx, SInt}).S)
+		}
+		u.assume(st, T{fmt.Sprintf("(forall ((j!q Int)) (! (=> (and (<= 0 j!q) (< j!q %s)) (= %s %s)) :pattern (%s)))",
+			ln.S, at(cont, "j!q"), at(old, fmt.Sprintf("(%s j!q)", pi)), at(cont, "j!q")), SBool})
+		u.assume(st, T{fmt.Sprintf("(forall ((j!q Int)) (! (=> (not (and (<= %s j!q) (< j!q (+ %s %s)))) (= (select %s j!q) (select %s j!q))) :pattern ((select %s j!q))))",
+			sv.Sl.Off.S, sv.Sl.Off.S, ln.S, cont.S, old.S, cont.S), SBool})
+		arr := sv.Sl.Arr
+		u.write(st, key, arr, func(h T) T { return sto(h, arr, cont) }, arrSort(SInt, inner))
+	}
+	u.note("sorting permutes the slice in place (bijection of indexes); the comparison function is assumed pure")
+	return nil, true
+}
 var specIntrinsics = map[string]func(c *SpecCtx, args []*V) *V{}
 
 type DynHook func(f *Frame, instr ssa.Instruction, c *ssa.CallCommon, fv *V, args []*V, st *State) ([]*V, bool)
